@@ -355,7 +355,12 @@ def handle (req : Sexp) : Sexp :=
       let script ← field "script" fs
       let script ← script.mapM parseSend
       let calls ← field "calls" fs
-      some (Sexp.list (txRun calls true ⟨grams, [], none⟩ script))).getD (sym "bad-request")
+      let st0 : Tx := match field "txbs" fs with
+        | some [b, d] => (match bytes? b, nat? d with
+          | some b, some d => ⟨grams, b, some d⟩
+          | _, _ => ⟨grams, [], none⟩)
+        | _ => ⟨grams, [], none⟩
+      some (Sexp.list (txRun calls true st0 script))).getD (sym "bad-request")
   | .list (.atom "txp" :: fs) =>
     (do
       let kind ← (field1 "peer" fs) >>= sym?
@@ -365,7 +370,12 @@ def handle (req : Sexp) : Sexp :=
       let script ← field "script" fs
       let raw ← script.mapM parseSock
       let calls ← field "calls" fs
-      some (Sexp.list (txRunP raw 0 calls true ⟨grams, [], none⟩ (raw.map (peerSend k))))).getD (sym "bad-request")
+      let st0 : Tx := match field "txbs" fs with
+        | some [b, d] => (match bytes? b, nat? d with
+          | some b, some d => ⟨grams, b, some d⟩
+          | _, _ => ⟨grams, [], none⟩)
+        | _ => ⟨grams, [], none⟩
+      some (Sexp.list (txRunP raw 0 calls true st0 (raw.map (peerSend k))))).getD (sym "bad-request")
   | .list (.atom "rx" :: fs) =>
     (do
       let authic ← (field1 "authic" fs) >>= bool?
